@@ -4,7 +4,7 @@ CONSTANTS
   Paths <- PathsAll
   Variants <- VariantsAll
   Redirects = {FALSE, TRUE}
-  PullGated = FALSE
+  PullGated = TRUE
 INVARIANTS Inv_CredsModuloKnown Inv_WrittenImpliesOrigin
 CONSTRAINT Export
 CHECK_DEADLOCK FALSE
